@@ -31,8 +31,8 @@ MANIFEST_INFO = {
     "engine": "B",
     "design_ref": "DESIGN.md section 5, C17",
     "technique": "explicit-state BFS over histories of startTestRun/tags/startTest/outcome/stopTest calls replayed on fresh real result objects and adapter chains, canonical-state merging, G/L tag-scope reference model compared at every state",
-    "level_text": "All well-formed call histories up to the depth bound (8 quick, 11 thorough) over 15 operations (8 tag changes over {a,b}, two outcomes, the startTest-less addSkip+stopTest pair, a tagged PlaceHolder) are applied to every result class and adapter chain in scope; current_tags is compared with the model in every reachable state and the tags observed by wrapped results / stream consumers at each outcome are compared with the reporter's model tags.",
-    "level_note": "Trusts the harness recorders and the 10-line tag model; tag universe {a,b,p,x}; histories are well-formed (one outcome per test, startTestRun only outside tests).",
+    "level_text": "All well-formed call histories up to the depth bound (8 quick, 11 thorough) over 15 operations (8 tag changes over {a,b}, two outcomes (and a second outcome for the same test), the startTest-less addSkip+stopTest pair, a tagged PlaceHolder) are applied to every result class and adapter chain in scope; current_tags is compared with the model in every reachable state and the tags observed by wrapped results / stream consumers at each outcome are compared with the reporter's model tags.",
+    "level_note": "Trusts the harness recorders and the 10-line tag model; tag universe {a,b,p,x}; histories are well-formed (one or two outcomes per test, startTestRun only outside tests).",
 }
 
 TAG_OPS = []
@@ -259,6 +259,9 @@ class System:
             out.append(("addFailure",))
         else:
             out.append(("stopTest",))
+            if m.has_outcome == 1:
+                # a second outcome for the same test (an error reported on top of a failure)
+                out.append(("addFailure",))
         out.extend(TAG_OPS)
         return out
 
@@ -297,7 +300,7 @@ class System:
                     top.addSuccess(T1)
                 else:
                     top.addFailure(T1, details={"d": text_content("x")})
-                m.has_outcome = True
+                m.has_outcome = int(m.has_outcome) + 1
                 expect_seen = m.L
                 expect_branch = m.LB
             elif name == "stopTest":
